@@ -12,6 +12,8 @@ TRI = {"nneut": Rat.atom("N") - Rat.atom("npos") - Rat.atom("nneg")}
 
 
 def run(ck, prog):
+    from props.common import check_memos
+    ck.attempt(check_memos, ck, prog)
     ck.explanation = (
         "sigma(), deltaForm(w) (w symbolic) and delta() are mapped to normal forms: a decision table over exact "
         "rational functions of (n+, n-, N), and window sums keyed by (index domain, window slice, piecewise term "
